@@ -78,7 +78,17 @@ def decoder_roles(ctx: Ctx, const: str) -> dict[str, Any]:
         second, w = _after_backslash(node)
         nested = [s for s in rx.subnodes(body) if s[0] == 'cap']
         alts = body[1] if body[0] == 'alt' else (body,)
-        if any(a == ('lit', ((47, 47),)) for a in alts):
+        sep_ref = rx.parse(r'/|\\/', 0).node
+        is_sep = False
+        if not nested:
+            try:
+                is_sep = rx.equivalent(rx.strip_caps(body), sep_ref, uni)[0]
+            except Exception:
+                is_sep = False
+        if is_sep:
+            role = 'sep'
+            roles['sep_forms'] = ['[\\][/]']  # language-equal to `/|\/`
+        elif any(a == ('lit', ((47, 47),)) for a in alts):
             role = 'sep'
             esc = [a for a in alts if a != ('lit', ((47, 47),))]
             roles['sep_forms'] = sorted(rx.show(a, uni) for a in esc)
